@@ -5,6 +5,7 @@ offsets `placed` assigns (composition of the L1 round trips of Proof/DexFile.lea
 -/
 import AgVerif.Proof.DexTables
 import AgVerif.Proof.DexFile
+import AgVerif.Props.C03
 namespace AgVerif.C05
 open AgVerif.DexFile AgVerif.LoadOrder
 open AgVerif.Spec.DexFile (ushort uint ULeb protoId fieldId methodId classDef typeListBody codeHdr EncClassData)
@@ -101,17 +102,100 @@ theorem decClassData_item (cd : ClassData) (bytes rest : Bytes)
   rw [decClassData_enc _ _ _ _ bytes rest h]
   simp only [List.map_map, Function.comp_def, List.map_id']
 
-theorem decCode_item (c : Code) (rest : Bytes) (h : CodeOk c) :
-    decCode (encCode c ++ rest) = some (c, rest) := by
+/-! ### what follows the instructions of a code item -/
+
+theorem sleb_enc (n : Spec.Tries.SNum) (rest : Bytes) (h : n.WF) : sleb (n.bytes ++ rest) = some (n.val, rest) := by
+  unfold sleb
+  rw [AgVerif.C03.sleb_decode_spec n.bytes rest n.val h.1 h.2.1 h.2.2]
+  simp
+
+theorem unum_enc (n : Spec.Tries.UNum) (rest : Bytes) (h : n.WF) : uleb (n.bytes ++ rest) = some (n.val, rest) :=
+  uleb_enc n.bytes n.val rest h
+
+theorem decN_flat {α β} (d : Dec β) (enc : α → Bytes) (val : α → β) : ∀ (xs : List α) (rest : Bytes),
+    (∀ x ∈ xs, ∀ r, d (enc x ++ r) = some (val x, r)) →
+    decN d xs.length (xs.flatMap enc ++ rest) = some (xs.map val, rest)
+  | [], _, _ => rfl
+  | x :: xs, rest, h => by
+    simp only [List.length_cons, decN, List.flatMap_cons, List.append_assoc, bind, Option.bind,
+      h x List.mem_cons_self, decN_flat d enc val xs rest (fun y hy => h y (List.mem_cons_of_mem _ hy)),
+      pure, List.map_cons]
+
+theorem decHandler_enc (h : Spec.Tries.EncHandler) (rest : Bytes) (hw : h.WF) :
+    decHandler (h.bytes ++ rest) = some ((), rest) := by
+  obtain ⟨hs, hp, hc⟩ := hw
+  have hpairs := decN_flat (fun b => do let (_, r) ← uleb b; let (_, r) ← uleb r; pure ((), r))
+    Spec.Tries.EncPair.bytes (fun _ => ()) h.pairs
+  unfold decHandler Spec.Tries.EncHandler.bytes
+  simp only [List.append_assoc, bind, Option.bind, sleb_enc h.size _ hs] at hpairs ⊢
+  cases hca : h.catchAll with
+  | none =>
+    rw [hca] at hc
+    obtain ⟨hne, hsz⟩ := hc
+    have hn : h.size.val.natAbs = h.pairs.length := by omega
+    have hpos : ¬ h.size.val ≤ 0 := by
+      have : 0 < h.pairs.length := List.length_pos_iff.mpr hne
+      omega
+    simp only [hn, List.nil_append, hpos, ↓reduceIte]
+    rw [hpairs rest (fun p hp' r => by
+      simp only [Spec.Tries.EncPair.bytes, List.append_assoc,
+        unum_enc p.ty _ (hp p hp').1, unum_enc p.addr _ (hp p hp').2, pure])]
+    rfl
+  | some c =>
+    rw [hca] at hc
+    obtain ⟨hcw, hsz⟩ := hc
+    have hn : h.size.val.natAbs = h.pairs.length := by omega
+    have hpos : h.size.val ≤ 0 := by omega
+    simp only [hn, hpos, ↓reduceIte]
+    rw [hpairs (c.bytes ++ rest) (fun p hp' r => by
+      simp only [Spec.Tries.EncPair.bytes, List.append_assoc,
+        unum_enc p.ty _ (hp p hp').1, unum_enc p.addr _ (hp p hp').2, pure])]
+    simp only [unum_enc c rest hcw, pure]
+
+theorem decTries_enc : ∀ (ts : List Spec.Tries.EncTry) (rest : Bytes),
+    decN (fun b => do let (_, r) ← u32 b; let (_, r) ← u32 r; pure ((), r)) ts.length
+      (ts.flatMap Spec.Tries.EncTry.bytes ++ rest) = some (ts.map (fun _ => ()), rest) := by
+  intro ts rest
+  exact decN_flat _ Spec.Tries.EncTry.bytes (fun _ => ()) ts rest (fun t _ r => by
+    simp [Spec.Tries.EncTry.bytes, Spec.Tries.le32, Spec.Tries.le16, u32, bind, Option.bind, pure])
+
+theorem decCode_item (c : Code) (tail rest : Bytes) (h : CodeOk c) (ht : CodeTail c tail) :
+    decCode (encCode c ++ tail ++ rest) = some (c, rest) := by
   obtain ⟨h1, h2, h3, h4, h5, h6, h7⟩ := h
   obtain ⟨⟨regs, ins, outs, tries, dbg, size⟩, insns⟩ := c
   simp only at h1 h2 h3 h4 h5 h6 h7
-  subst h4
   have e : 2 * size = insns.length := h7.symm
-  simp only [decCode, encCode, List.append_assoc, bind, Option.bind,
-    decCodeHdr_enc regs ins outs 0 dbg size (insns ++ rest) h1 h2 h3 (by omega) h5 h6,
-    e, List.take_left', List.drop_left', Nat.lt_irrefl, decide_false, Bool.and_false,
-    Bool.false_eq_true, ↓reduceIte, pure]
+  unfold CodeTail at ht
+  simp only at ht
+  by_cases h0 : tries = 0
+  · subst h0
+    simp only [↓reduceIte] at ht
+    subst ht
+    simp only [decCode, encCode, List.append_assoc, List.nil_append, bind, Option.bind,
+      decCodeHdr_enc regs ins outs 0 dbg size (insns ++ rest) h1 h2 h3 (by omega) h5 h6,
+      e, List.take_left', List.drop_left', Nat.lt_irrefl, decide_false, Bool.and_false,
+      Bool.false_eq_true, ↓reduceIte, pure]
+  · rw [if_neg h0] at ht
+    obtain ⟨pad, p, rfl, hpad, hnt, hls, hlv, hh⟩ := ht
+    have hpos : tries > 0 := by omega
+    have hhand := decN_flat decHandler Spec.Tries.EncHandler.bytes (fun _ => ()) p.handlers rest
+      (fun x hx r => decHandler_enc x r (hh x hx))
+    have htr := decTries_enc p.tries (p.listSize.bytes ++ (List.flatMap Spec.Tries.EncHandler.bytes p.handlers ++ rest))
+    simp only [bind, Option.bind, pure] at htr
+    simp only [decCode, encCode, Spec.Tries.Plan.bytes, List.append_assoc, bind, Option.bind,
+      decCodeHdr_enc regs ins outs tries dbg size _ h1 h2 h3 h4 h5 h6,
+      e, List.take_left', List.drop_left', hpos, decide_true, Bool.and_true, ↓reduceIte]
+    by_cases hodd : size % 2 = 1
+    · rw [if_pos hodd] at hpad
+      match pad, hpad with
+      | [a, b], _ =>
+        simp only [hodd, BEq.rfl, ↓reduceIte, List.cons_append, List.nil_append, u16, ← hnt, htr,
+          unum_enc p.listSize _ hls, hlv, hhand, pure]
+    · rw [if_neg hodd] at hpad
+      have hb : (size % 2 == 1) = false := by simp [hodd]
+      rw [List.eq_nil_of_length_eq_zero hpad]
+      simp only [hb, Bool.false_eq_true, ↓reduceIte, List.nil_append, ← hnt, htr,
+        unum_enc p.listSize _ hls, hlv, hhand, pure]
 
 def align4 (off : Nat) : Nat := if off % 4 != 0 then off + (4 - off % 4) else off
 
@@ -135,37 +219,37 @@ theorem decCodes_align (file : Bytes) : ∀ (n off : Nat), decCodes file n off =
 /-- `CodeItem.__init__`: every item starts at the next multiple of 4 -/
 theorem decCodes_placed (file : Bytes) :
     ∀ (xs : List (Code × Bytes)) (off : Nat), off % 4 = 0 →
-      (∀ p ∈ xs, CodeOk p.1 ∧ p.2.length = (4 - (encCode p.1).length % 4) % 4) →
-      At file off (bytesOf (xs.map fun p => (p.1, encCode p.1 ++ p.2))) →
-      decCodes file xs.length off = some (placed off (xs.map fun p => (p.1, encCode p.1 ++ p.2)))
+      (∀ p ∈ xs, ∃ body pad, p.2 = body ++ pad ∧ (∀ rest, decCode (body ++ rest) = some (p.1, rest)) ∧
+        pad.length = (4 - body.length % 4) % 4) →
+      At file off (bytesOf xs) →
+      decCodes file xs.length off = some (placed off xs)
   | [], off, _, _, _ => rfl
-  | (c, pad) :: xs, off, hoff, hd, hat => by
-    have hat' : At file off ((encCode c ++ pad) ++ bytesOf (xs.map fun p => (p.1, encCode p.1 ++ p.2))) := by
-      simpa [bytesOf] using hat
+  | (c, item) :: xs, off, hoff, hd, hat => by
+    obtain ⟨body, pad, hitem, hdec, hpad⟩ := hd (c, item) List.mem_cons_self
+    simp only at hitem hdec hpad
+    subst hitem
+    have hat' : At file off ((body ++ pad) ++ bytesOf xs) := by simpa [bytesOf] using hat
     obtain ⟨post, hp⟩ := hat'.drop
-    obtain ⟨hok, hpad⟩ := hd (c, pad) List.mem_cons_self
-    simp only at hok hpad
-    have h1 := decCode_item c (pad ++ (bytesOf (xs.map fun p => (p.1, encCode p.1 ++ p.2)) ++ post)) hok
-    have hoff' : (off + (encCode c ++ pad).length) % 4 = 0 := by
+    have h1 := hdec (pad ++ (bytesOf xs ++ post))
+    have hoff' : (off + (body ++ pad).length) % 4 = 0 := by
       simp only [List.length_append]; omega
-    have ih := decCodes_placed file xs (off + (encCode c ++ pad).length) hoff'
+    have ih := decCodes_placed file xs (off + (body ++ pad).length) hoff'
       (fun p hp => hd p (List.mem_cons_of_mem _ hp)) hat'.tail
     have hne : ¬ (off % 4 != 0) = true := by simp [hoff]
     simp only [List.length_cons, decCodes, hne, Bool.false_eq_true, ↓reduceIte, hp, List.append_assoc,
       bind, Option.bind] at h1 ⊢
     rw [h1]
-    simp only [List.map_cons, placed, pure]
-    have hl : off + ((encCode c ++ (pad ++ (bytesOf (List.map (fun p => (p.fst, encCode p.fst ++ p.snd)) xs) ++ post))).length -
-            List.length (pad ++ (bytesOf (List.map (fun p => (p.fst, encCode p.fst ++ p.snd)) xs) ++ post))) =
-        off + (encCode c).length := by
+    simp only [placed, pure]
+    have hl : off + ((body ++ (pad ++ (bytesOf xs ++ post))).length - List.length (pad ++ (bytesOf xs ++ post))) =
+        off + body.length := by
       simp only [List.length_append]; omega
-    have ha : align4 (off + (encCode c).length) = off + List.length (encCode c ++ pad) := by
+    have ha : align4 (off + body.length) = off + List.length (body ++ pad) := by
       unfold align4
       simp only [List.length_append]
-      by_cases h : (off + (encCode c).length) % 4 = 0
+      by_cases h : (off + body.length) % 4 = 0
       · have : pad.length = 0 := by omega
         simp [h, this]
-      · have h' : ((off + (encCode c).length) % 4 != 0) = true := by simp [h]
+      · have h' : ((off + body.length) % 4 != 0) = true := by simp [h]
         rw [if_pos h']; omega
     rw [hl, decCodes_align, ha, ih]
 
